@@ -47,7 +47,8 @@ def gen_count(rng, allow_zero=False):
     if r < 0.55:
         return 1
     if r < 0.75:
-        return round(rng.uniform(0.001, 50), rng.randint(1, 5))
+        d = rng.randint(1, 5)
+        return max(round(rng.uniform(0.001, 50), d), 10.0 ** -d)   # never rounds to 0
     if r < 0.85:
         return rng.choice(BOUNDARY_COUNTS)
     if r < 0.90 and allow_zero:
